@@ -121,6 +121,9 @@ func decodeNBNSName(buf []byte) (n int, name string, err error) {
 // nbnb query request is a standard dns question packet
 // with class set to 0x20 (NBNS query request).
 func (h *DNSHandler) SendNBNSQuery(srcAddr packet.Addr, dstAddr packet.Addr, name string) (err error) {
+	if len(name) > netbiosMaxNameLen { // a NetBIOS name has 16 octets: refuse instead of sending a truncated name
+		return packet.ErrInvalidParam
+	}
 	const word = uint16(responseRequest | opcodeQuery | nmflagsUnicast | rcodeOK)
 	sequence++
 	p := packet.EncodeDNSQuery(sequence, word, encodeNBNSName(name), questionTypeGeneral)
